@@ -27,7 +27,7 @@ import (
 )
 
 var routerPoolStr = []string{"/net/me", "/net/a", "/net/b", "/net/c", "/net/d", "/net/e", "/net/a/sub"}
-var fibPfxPoolStr = []string{"/p/1", "/p/2", "/p/2/x", "/q", "/net/b/32=DV", "/net/a", "/r/%01", "/s/t/u/v"}
+var fibPfxPoolStr = []string{"/p/1", "/p/32=1", "/p/2", "/p/2/x", "/q", "/net/b/32=DV", "/net/a", "/r/%01", "/s/t/u/v"}
 
 type interner struct {
 	ids   map[string]int
@@ -47,14 +47,15 @@ func (in *interner) id(n enc.Name) int {
 func (in *interner) known(n enc.Name) (int, bool) { v, ok := in.ids[n.String()]; return v, ok }
 
 type fibCase struct {
-	w       *bufio.Writer
-	in      *interner
-	r       *dv.Router
-	eng     *fakeEngine
-	cfg     *config.Config
-	routers []enc.Name // routerPool (index 0 = this router)
-	pfxs    []enc.Name
-	hashes  map[uint64]string
+	w          *bufio.Writer
+	in         *interner
+	r          *dv.Router
+	eng        *fakeEngine
+	cfg        *config.Config
+	routers    []enc.Name // routerPool (index 0 = this router)
+	pfxs       []enc.Name
+	hashes     map[uint64]string
+	collisions []string // reported after the case header
 
 	// executor histories (kind "fib ... x"): the REAL NfdMgmtThread.Start runs against a stand-in forwarder whose
 	// ExecMgmtCmd fails the first k attempts of chosen commands
@@ -101,7 +102,8 @@ func newFibCase(w *bufio.Writer, seed int64) *fibCase {
 	for _, n := range c.in.names {
 		h := n.Hash()
 		if o, ok := c.hashes[h]; ok && o != n.String() {
-			panic("hash collision in the generated universe: " + o + " " + n.String())
+			// the model assumes collision freedom on the universe: report, and go on (the tables will conflate the two)
+			c.collisions = append(c.collisions, fmt.Sprintf("obs hashcollision %s %s", o, n.String()))
 		}
 		c.hashes[h] = n.String()
 	}
@@ -226,7 +228,15 @@ func (c *fibCase) obsFib() {
 	_ = nm
 }
 
+func (c *fibCase) reportCollisions() {
+	for _, l := range c.collisions {
+		fmt.Fprintln(c.w, l)
+	}
+	c.collisions = nil
+}
+
 func (c *fibCase) exec(op string) {
+	c.reportCollisions()
 	fmt.Fprintf(c.w, "op %s\n", op)
 	f := strings.Fields(op)
 	atoi := func(s string) int { v, _ := strconv.Atoi(s); return v }
